@@ -1150,7 +1150,7 @@ func (c *e2eCase) oracle(res *e2eResult) []string {
 		one := ratInt(1)
 		zero := ratInt(0)
 		for _, u := range units {
-			must := u.ptsTicks.Cmp(zero) >= 0 && !u.gated
+			must := u.ptsTicks.Cmp(zero) >= 0 && (!u.gated || os.Getenv("VERIF_C10_STRICT_GATING") == "1")
 			mustNot := u.ptsTicks.Cmp(new(big.Rat).Neg(one)) <= 0
 			isNext := k < len(log) && log[k].pid == strconv.FormatInt(u.pid, 10)
 			if !isNext {
